@@ -181,7 +181,7 @@ fn pop_all_shapes(repr: u8, front: bool) {
 // @tier quick
 // @fns KString::pop_front (Full representation), StringSlice::split, From<StringSlice<usize>> for KString, the grapheme segmentation model
 // @bound text of 4 bytes in UTF-8 shapes [1,1,1,1], [1,2,1], [2,2], [3,1], [1,3]; ASCII slots in {a, CR, LF, tab}, 2-byte slots in {U+00E9, U+0301}, 3-byte slot U+5B57
-// @timeout 1200
+// @timeout 2400
 // @mem 8
 #[kani::proof]
 #[kani::unwind(8)]
@@ -193,7 +193,7 @@ fn c15_kstring_pop_front_full() {
 // @tier thorough
 // @fns KString::pop_back (Full representation), StringSlice::split, From<StringSlice<usize>> for KString, the grapheme segmentation model
 // @bound text of 4 bytes in UTF-8 shapes [1,1,1,1], [1,2,1], [2,2], [3,1], [1,3]; ASCII slots in {a, CR, LF, tab}, 2-byte slots in {U+00E9, U+0301}, 3-byte slot U+5B57
-// @timeout 1200
+// @timeout 2400
 // @mem 8
 #[kani::proof]
 #[kani::unwind(8)]
@@ -205,7 +205,7 @@ fn c15_kstring_pop_back_full() {
 // @tier thorough
 // @fns KString::pop_front (Slice (u16 bounds) representation), StringSlice::split, From<StringSlice<usize>> for KString, the grapheme segmentation model
 // @bound text of 4 bytes in UTF-8 shapes [1,1,1,1], [1,2,1], [2,2], [3,1], [1,3]; ASCII slots in {a, CR, LF, tab}, 2-byte slots in {U+00E9, U+0301}, 3-byte slot U+5B57
-// @timeout 1200
+// @timeout 2400
 // @mem 8
 #[kani::proof]
 #[kani::unwind(8)]
@@ -217,7 +217,7 @@ fn c15_kstring_pop_front_slice() {
 // @tier quick
 // @fns KString::pop_back (Slice (u16 bounds) representation), StringSlice::split, From<StringSlice<usize>> for KString, the grapheme segmentation model
 // @bound text of 4 bytes in UTF-8 shapes [1,1,1,1], [1,2,1], [2,2], [3,1], [1,3]; ASCII slots in {a, CR, LF, tab}, 2-byte slots in {U+00E9, U+0301}, 3-byte slot U+5B57
-// @timeout 1200
+// @timeout 2400
 // @mem 8
 #[kani::proof]
 #[kani::unwind(8)]
@@ -229,7 +229,7 @@ fn c15_kstring_pop_back_slice() {
 // @tier thorough
 // @fns KString::pop_front (SliceLarge (boxed) representation), StringSlice::split, From<StringSlice<usize>> for KString, the grapheme segmentation model
 // @bound text of 4 bytes in UTF-8 shapes [1,1,1,1], [1,2,1], [2,2], [3,1], [1,3]; ASCII slots in {a, CR, LF, tab}, 2-byte slots in {U+00E9, U+0301}, 3-byte slot U+5B57
-// @timeout 1200
+// @timeout 2400
 // @mem 8
 #[kani::proof]
 #[kani::unwind(8)]
@@ -241,7 +241,7 @@ fn c15_kstring_pop_front_large() {
 // @tier thorough
 // @fns KString::pop_back (SliceLarge (boxed) representation), StringSlice::split, From<StringSlice<usize>> for KString, the grapheme segmentation model
 // @bound text of 4 bytes in UTF-8 shapes [1,1,1,1], [1,2,1], [2,2], [3,1], [1,3]; ASCII slots in {a, CR, LF, tab}, 2-byte slots in {U+00E9, U+0301}, 3-byte slot U+5B57
-// @timeout 1200
+// @timeout 2400
 // @mem 8
 #[kani::proof]
 #[kani::unwind(8)]
@@ -253,6 +253,7 @@ fn c15_kstring_pop_back_large() {
 // @fns KString::with_bounds (Full, Slice, SliceLarge arms), StringSlice::new, StringSlice::with_bounds, KString::as_str
 // @bound text "a U+00E9 U+5B57 a" in each representation; bounds a <= 9, b <= 7 = len (caller precondition from KRange::indices)
 // @assume end <= string length (established by KRange::indices(len) in run_index)
+// @timeout 2400
 #[kani::proof]
 #[kani::unwind(10)]
 fn c15_kstring_with_bounds() {
@@ -291,6 +292,7 @@ impl Hasher for Rec {
 // @props C14
 // @fns impl PartialEq / Ord / Hash for KString across the Full, Slice and SliceLarge representations
 // @bound two texts of 3 bytes (shapes [1,1,1] and [1,2]), each in any representation
+// @timeout 2400
 #[kani::proof]
 #[kani::unwind(8)]
 fn c14_kstring_repr() {
